@@ -96,8 +96,8 @@ def run(tier, seed):
     # threshold-adjacent members (constructed by bisection, never reached by sampling): an inner conjugate root pair of
     # 1 - F F~ with imaginary part anywhere between 1e-8 and 1e-2
     nc_plan = []
-    for d in ((5, 6, 7, 8, 10, 12) if tier == "quick" else list(range(5, 13)) * 4):
-        nc = P.near_collision_cheb(rng, d)
+    for d in ((5, 6, 7, 8, 10, 12, 6, 8, 9, 10, 11, 12) if tier == "quick" else list(range(5, 13)) * 6):
+        nc = P.near_collision_cheb(rng, d, real_side=(len(nc_plan) % 2 == 1))
         if nc is None:
             ctx.count("near-collision:not-constructed")
         else:
